@@ -344,7 +344,6 @@ class Sim:
             self.lines.append("unsub")
             self.lines.append(f"o call {now} unsub")
             t = self.profile._resubscriber_task
-            inflight = self.task_alive() and any(l.startswith("o req") for l in self.lines[-3:-2])
             res, _ = self.call(self.profile.async_unsubscribe_services())
             self.lines.append(f"o ret {ms(self.loop.time())} unsub {res}")
             self.tags.add("unsub:task" if t is not None else "unsub:notask")
@@ -449,6 +448,27 @@ def rand_recipe(rng, calm: bool) -> Dict[str, Any]:
     return {"profile": profile, "services": services, "script": script, "default": default, "ops": ops}
 
 
+def lost_then_resub_recipe(rng) -> Dict[str, Any]:
+    """every renewal of the first round fails (the renewal task ends by itself), then the caller
+    subscribes again with auto-renewal and waits well past the new expiry (F12c family)"""
+    profile = rng.choice(["dmr", "igd"])
+    k = rng.choice([1, 1, 2, 3])
+    services = list(INTERESTING[profile])[:k] + rng.sample(["X1", "X2"], rng.choice([0, 1]))
+    rng.shuffle(services)
+    script = [["ok", rng.choice([61, 90, 120, 300]), rng.choice([0, 125])] for _ in range(k)]
+    for _ in range(k):
+        kind = rng.choice(["unreach", "refuse", "comm"])
+        script.append([kind, 61, rng.choice([0, 250])])
+        if kind != "unreach":
+            script.append([rng.choice(["unreach", "refuse", "comm"]), 61, 0])
+    t2 = rng.choice([61, 100, 300, 540, "abs"])
+    ops = [["sub", 1], ["wait", 125 * rng.randrange(2400, 8000)], ["sub", 1],
+           ["wait", 125 * rng.randrange(4000, 40000)], ["wait", 1000000]]
+    if rng.random() < 0.7:
+        ops.append(["unsub"])
+    return {"profile": profile, "services": services, "script": script, "default": ["ok", t2, 0], "ops": ops}
+
+
 def event_times(case: Case) -> List[int]:
     """distinct virtual times at which something happens in the trace (request arrivals, reply arrivals)"""
     ts = set()
@@ -502,7 +522,11 @@ def _worker(args) -> List[Case]:
     for j in range(count):
         calm = ctx.rng.random() < 0.45
         rec = rand_recipe(ctx.rng, calm)
-        if kind == "r":
+        if kind == "r" and j % 12 == 11:
+            c = run_recipe(ctx, lost_then_resub_recipe(ctx.rng), f"l{idx}_{j}")
+            c.tags.append("gen:lost-then-resub")
+            out.append(c)
+        elif kind == "r":
             c = run_recipe(ctx, rec, f"r{idx}_{j}")
             c.tags.append("gen:calm" if calm else "gen:wild")
             out.append(c)
